@@ -72,6 +72,38 @@ def _cache_sequence(c1, c2, os_a, nc_a, asc_a, os_b, nc_b, asc_b):
     return after == fresh and _component_ok(after, ob['os_type'] == 'windows', nc_b)
 
 
+_RFN = ['unix', 'windows', 'lower', 'upper', 'ascii', 'nocontrol', 'ascii,lower', 'windows,lower', 'unix,nocontrol', 'lower,nocontrol']
+
+
+def _namer_from_options(rfn_i, seg_i, recursive):
+    """The path namer as the application builds it from a real command line (--restrict-file-names=...): whatever modes are or are
+    not named, the chosen path stays inside the prefix."""
+    from wpull.application.options import AppArgumentParser
+    from wpull.application.factory import Factory
+    from wpull.application.tasks.writer import FileWriterSetupTask
+    from wpull.writer import NullWriter
+    clear_url_memo()
+    P._encoder_cache.clear()
+    rfn = pick(_RFN, rfn_i)
+    seg = pick(_SEGS, seg_i)
+    with nosym():
+        argv = ['ftp://example.com/pub/' + seg, '-P', '/dl', '--restrict-file-names=' + rfn] + (['--recursive'] if recursive else [])
+        args = AppArgumentParser().parse_args(argv)
+        factory = Factory({'PathNamer': PathNamer, 'FileWriter': NullWriter})
+        writer = FileWriterSetupTask._build_file_writer(types.SimpleNamespace(args=args, factory=factory))
+        namer = writer._path_namer
+    try:
+        info = URLInfo.parse('ftp://example.com/pub/' + seg)
+    except ValueError:
+        return True
+    path = namer.get_filename(info)
+    hit('named')
+    if not path.startswith('/dl/') or os.path.normpath(path) != path:
+        return False
+    windows = 'windows' in rfn
+    return all(_component_ok(c, windows, 'nocontrol' not in rfn) for c in path[len('/dl/'):].split('/'))
+
+
 def _safe_component_free(name, os_i, no_control, ascii_only):
     P._encoder_cache.clear()
     if name == '':
@@ -189,6 +221,12 @@ HARNESSES = [
       doc='safe_filename of every 1-2 (thorough 3) character name over a 24-class character pool (incl. a trailing LF / CR) under every option combination is a '
           'single non-empty component, not "." / "..", without separator (windows: none of the reserved characters), without C0 controls '
           'when no_control'),
+    H('namer_from_options', '_namer_from_options', 'rfn_i: int, seg_i: int, recursive: bool', pre=['0 <= rfn_i < %d and 0 <= seg_i < %d' % (len(_RFN), len(_SEGS))],
+      parts=[{'tag': 'r%d' % r, 'fix': {'recursive': str(bool(r))}} for r in (0, 1)],
+      timeout={'quick': 250, 'thorough': 600}, samples=[(2, 1, True), (0, 6, False)], need=['named'],
+      funcs=['wpull/application/tasks/writer.py:FileWriterSetupTask._build_file_writer', 'wpull/path.py:PathNamer.get_filename'],
+      doc='the PathNamer built by the application from a real --restrict-file-names command line (10 mode lists, with and without an OS '
+          'mode) names FTP URLs from the hostile segment pool inside the prefix, every component well-formed'),
     H('cache_sequence', '_cache_sequence', 'c1: int, c2: int, os_a: int, nc_a: bool, asc_a: bool, os_b: int, nc_b: bool, asc_b: bool',
       pre=['0 <= c1 < %d and 0 <= c2 < %d and 0 <= os_a <= 1 and 0 <= os_b <= 1' % (len(_CH), len(_CH))],
       parts=[{'tag': 'a%d%d' % (o, n), 'fix': {'os_a': str(o), 'nc_a': str(bool(n)), 'c2': '0'}} for o in (0, 1) for n in (0, 1)],
